@@ -172,6 +172,10 @@ func main() {
 		workerMain(os.Args[2:])
 		return
 	}
+	if os.Args[1] == "--digest" {
+		digestMain(os.Args[2])
+		return
+	}
 	prop := os.Args[1]
 	fs := flag.NewFlagSet("vcheck", flag.ExitOnError)
 	tier := fs.String("tier", envOr("VERIF_TIER", "quick"), "quick|thorough")
